@@ -191,7 +191,7 @@ theorem C12_bits :
     ∧ isNaNBits 0x7FF0000000000000 = false ∧ isNaNBits 0xFFF0000000000000 = false
     ∧ isNaNBits 0x3FF0000000000000 = false ∧ isNaNBits 0 = false := by decide
 
-/-- `set_observed(sel, values)` stores exactly the given values, in order, at exactly the selected rows, keeps
+/-- `set_observed(sel, values)` (a selection of the screen's length) stores exactly the given values, in order, at exactly the selected rows, keeps
     every other row's value, ORs the selection into the mask and touches nothing else. -/
 theorem C12_set_observed_exact (s : Screen) (h : Valid s) (sel : List Bool) (vals : List Nat)
     (hsel : sel.length = s.size) (hvals : vals.length = sel.count true) :
@@ -206,19 +206,33 @@ theorem C12_set_observed_exact (s : Screen) (h : Valid s) (sel : List Bool) (val
   refine ⟨_, ?_, rfl, maskFilter_assignMasked_sel _ _ _ hobs hvals, maskFilter_assignMasked_not _ _ _ hobs hvals,
     length_assignMasked _ _ _, ?_⟩
   · unfold setObserved
-    simp [hsel, hvals]
+    have hmask : (if sel.isEmpty then s.mask else List.zipWith (· || ·) s.mask sel)
+        = List.zipWith (· || ·) s.mask sel := by
+      cases sel with
+      | nil =>
+        have : s.mask = [] := List.length_eq_zero_iff.1 (by rw [w.len_mask, ← size_eq w, ← hsel]; rfl)
+        simp [this]
+      | cons b bs => simp
+    simp only [hsel, hvals, bne_self_eq_false, Bool.false_and, Bool.false_eq_true, ↓reduceIte, beq_self_eq_true,
+      hmask]
   · intro i hi
     have h1 : i < s.mask.length := by rw [w.len_mask, ← size_eq w]; exact hi
     have h2 : i < sel.length := by rw [hsel]; exact hi
     exact zipWith_or_get! _ _ i h1 h2
 
 theorem C12_set_observed_errors (s : Screen) (sel : List Bool) (vals : List Nat) :
-    (sel.length ≠ s.size → setObserved s sel vals = .error .indexError)
+    (sel.length ≠ s.size → sel ≠ [] → setObserved s sel vals = .error .indexError)
     ∧ (sel.length = s.size → vals.length ≠ sel.count true → vals.length ≠ 1 →
-        setObserved s sel vals = .error .valueError) := by
-  constructor
-  · intro h; simp [setObserved, h]
+        setObserved s sel vals = .error .valueError)
+    ∧ (sel = [] → vals.length ≤ 1 → setObserved s sel vals = .ok s) := by
+  refine ⟨?_, ?_, ?_⟩
+  · intro h h'; simp [setObserved, h, h']
   · intro h1 h2 h3; simp [setObserved, h1, h2, h3]
+  · intro h1 h2
+    subst h1
+    match vals, h2 with
+    | [], _ => simp [setObserved, assignMasked]
+    | [v], _ => simp [setObserved, assignMasked]
 
 /-! ### histories -/
 
